@@ -3,6 +3,9 @@
 mod calls;
 mod ctx;
 mod d_exact;
+mod d_hist;
+mod d_threads;
+mod d_variants;
 mod d_num;
 mod d_plan;
 mod d_shape;
@@ -74,7 +77,6 @@ fn main() {
         }
         i += 1;
     }
-    let _ = &scenarios;
     if let Some(m) = mask {
         rustfft::verif_hooks::set_feature_mask(m);
     }
@@ -101,6 +103,9 @@ fn main() {
             d_exact::run_exact(&mut ctx, false);
         }
         "c14" => d_exact::run_exact(&mut ctx, true),
+        "c10" => d_hist::run_c10(&mut ctx),
+        "c13" => d_variants::run_c13(&mut ctx),
+        "c11" => d_threads::run_c11(&mut ctx, &scenarios),
         "c02" => d_num::run_accuracy(&mut ctx, true),
         "c06" => d_num::run_c06(&mut ctx),
         "c07" => d_num::run_c07(&mut ctx),
